@@ -46,7 +46,7 @@ pub const PROPS: &[PropInfo] = &[
 ];
 
 pub const CRASH_PROPS: &[PropInfo] = &[
-    PropInfo { id: "C01", engine: Engine::Crash, level: "fault_enumeration", quick_runs: 160, thorough_runs: 6000, watchdog_s: 60,
+    PropInfo { id: "C01", engine: Engine::Crash, level: "fault_enumeration", quick_runs: 200, thorough_runs: 6000, watchdog_s: 60,
         rule: "one case = one history (DDL, autocommit statements, multi-statement sessions, batches, checkpoints, reopen) run with the I/O tap on, then EVERY prefix of its recorded file mutations rebuilt as an on-disk image, recovered with Database::open and judged against the acknowledged state; evaluations counts histories, coverage.crash_points counts images; non-trivial = the history had at least one crash point after an acknowledged commit; distinct = distinct fingerprints of (logical event log, I/O sequence)" },
     PropInfo { id: "C02", engine: Engine::Crash, level: "fault_enumeration", quick_runs: 160, thorough_runs: 6000, watchdog_s: 60,
         rule: "as C01, with a mix forcing transactions that are open, rolled back, dropped or failed at the crash point and small caches; non-trivial = at least one crash point fell while a transaction was open or after one was rolled back; distinct = distinct fingerprints of (logical event log, I/O sequence)" },
@@ -54,8 +54,13 @@ pub const CRASH_PROPS: &[PropInfo] = &[
         rule: "one case = one history; for every I/O prefix: open must succeed, a smoke transaction must work, close+open must change nothing, and for up to 24 prefixes of the recovery's own I/O (nested, depth 2) the restarted recovery must yield the same contents; non-trivial = at least one nested crash point was evaluated; distinct = distinct fingerprints" },
 ];
 
+pub const STORE_PROPS: &[PropInfo] = &[
+    PropInfo { id: "C17", engine: Engine::Wal, level: "fault_enumeration", quick_runs: 2500, thorough_runs: 120000, watchdog_s: 30,
+        rule: "one case = one sequence of appends (payload sizes from empty to one block, all record kinds) interleaved with force / close+reopen / truncate / reads with read-ahead 1-6, checked against a vector model after every read, then a crash at EVERY prefix of the recorded file mutations (reopen + read back); non-trivial = the log grew beyond its first block or was truncated or reopened, and at least one non-empty read was compared; distinct = distinct fingerprints of (operation log, I/O sequence)" },
+];
+
 pub fn prop(id: &str) -> Option<&'static PropInfo> {
-    PROPS.iter().chain(CRASH_PROPS.iter()).find(|p| p.id == id)
+    PROPS.iter().chain(CRASH_PROPS.iter()).chain(STORE_PROPS.iter()).find(|p| p.id == id)
 }
 
 /// Swarm: every run of a property draws its own workload mix.
@@ -117,6 +122,8 @@ pub fn profile_for(id: &str, rng: &mut Rng) -> Profile {
             p.w_reopen = *rng.pick(&[0, 0, 4]);
             p.w_check = 0;
             p.max_sessions = 2;
+            // rows with overflow chains are not generated here: open findings F7 / D6d
+            p.read_burst = if rng.chance(12) { rng.range(240, 420) as u32 } else { 0 };
             p.guards.push("uncheckpointed_create_with_open_txn".into()); // D3
             p.guards.push("checkpoint_with_open_txn".into()); // F4
             if id == "C08" {
